@@ -1,0 +1,29 @@
+// Copyright JAMF Software, LLC
+
+//go:build verif
+
+package replication
+
+import "sort"
+
+// VerifReconcileWorkers runs one round of worker reconciliation (a worker for every table of the follower,
+// none for tables that are gone) without the manager's own goroutine. Compiled only with the "verif" build tag.
+func (m *Manager) VerifReconcileWorkers() error { return m.reconcileWorkers() }
+
+// VerifWorkerTables lists the tables that currently have a replication worker.
+func (m *Manager) VerifWorkerTables() []string {
+	names := make([]string, 0, len(m.workers.registry))
+	for name := range m.workers.registry {
+		names = append(names, name)
+	}
+	sort.Strings(names)
+	return names
+}
+
+// VerifStopWorkers stops every worker of a manager that was never started.
+func (m *Manager) VerifStopWorkers() {
+	for _, w := range m.workers.registry {
+		m.stopWorker(w)
+	}
+	m.workers.wg.Wait()
+}
